@@ -896,6 +896,7 @@ func (m *Machine) panicString(v Value) string {
 
 // tryErrorString calls Error() or String() on an interface value, if it has one.
 func (m *Machine) tryErrorString(i Iface) (s string, ok bool) {
+	depth := len(m.frames)
 	for _, name := range []string{"Error", "String"} {
 		ms := m.Prog.SSA.MethodSets.MethodSet(i.T)
 		sel := ms.Lookup(nil, name)
@@ -909,9 +910,10 @@ func (m *Machine) tryErrorString(i Iface) (s string, ok bool) {
 		func() {
 			defer func() {
 				if r := recover(); r != nil {
-					if _, isAbort := r.(abortPath); isAbort {
+					if ap, isAbort := r.(abortPath); isAbort && ap.kind != "unsupported" {
 						panic(r)
 					}
+					m.frames = m.frames[:depth]
 					ok = false
 				}
 			}()
